@@ -573,6 +573,8 @@ class Function:
             elif isinstance(e, dict) and "f" in e:
                 if base[0] == "ovf" and e["f"] == 0:
                     base = ("bin", base[1], base[2], base[3])  # checked arithmetic: value component
+                elif base[0] == "agg" and base[1] in ("tuple", "array") and e["f"] < len(base[4]):
+                    base = base[4][e["f"]]  # field of a locally built tuple
                 else:
                     base = ("field", base, e["f"], e.get("name"))
             elif isinstance(e, dict) and "idx" in e:
@@ -882,6 +884,94 @@ class Function:
                 out.append((b["id"], len(b["stmts"])))
         return out
 
+    # -------------------------------------------------------------- taint
+    def taint(self, is_source, sanitiser=None, transparent=None):
+        """Flow-insensitive forward taint over locals.
+        is_source(stmt_or_term, point) -> bool marks the definitions that introduce taint.
+        sanitiser(call_term) -> bool: the call's result is clean.
+        Returns dict local -> list of (point, via) explaining why it is tainted, plus the list of
+        calls taint passed through (for the transparency audit)."""
+        tainted = {}
+        through = []
+
+        def carries_text(l):
+            if l <= 0:
+                return True
+            return _can_carry_text(self.locals[l]["tyt"])
+
+        def mark(l, point, why):
+            if l not in tainted and carries_text(l):
+                tainted[l] = (point, why)
+                return True
+            return False
+
+        def op_tainted(o):
+            return o is not None and o["k"] in ("copy", "move") and (
+                o["p"]["l"] in tainted or any(isinstance(e, dict) and e.get("idx") in tainted for e in o["p"]["proj"]))
+
+        def place_tainted(p):
+            return p["l"] in tainted
+
+        pts = self.points_to()
+        changed = True
+        while changed:
+            changed = False
+            for b in self.blocks:
+                if b["cleanup"]:
+                    continue
+                bid = b["id"]
+                for i, st in enumerate(b["stmts"]):
+                    if st["k"] != "assign":
+                        continue
+                    pt = (bid, i)
+                    rv = st["rv"]
+                    src = is_source(st, pt)
+                    t = src
+                    if not t:
+                        k = rv["k"]
+                        if k in ("use", "cast", "repeat"):
+                            t = op_tainted(rv["op"])
+                        elif k in ("ref", "rawptr", "copyforderef", "discr"):
+                            t = place_tainted(rv["p"]) and k != "discr"
+                        elif k == "agg":
+                            t = any(op_tainted(o) for o in rv["ops"])
+                        elif k in ("bin", "un"):
+                            t = False
+                    if t:
+                        tgt = st["p"]["l"]
+                        if st["p"]["proj"] and st["p"]["proj"][0] == "deref":
+                            for o in pts.get(tgt, ()):
+                                if o[0] == "local":
+                                    changed |= mark(o[1], pt, "store")
+                                elif o[0] == "param":
+                                    changed |= mark(-o[1], pt, "store")
+                        else:
+                            changed |= mark(tgt, pt, "source" if src else "assign")
+                t = b["term"]
+                if t and t["k"] == "call":
+                    pt = (bid, len(b["stmts"]))
+                    anyt = any(op_tainted(a) for a in t["args"])
+                    src = is_source(t, pt)
+                    if not anyt and not src:
+                        continue
+                    if sanitiser is not None and sanitiser(t):
+                        continue
+                    if anyt and (t, pt) not in through:
+                        through.append((t, pt))
+                    if not t["dest"]["proj"]:
+                        changed |= mark(t["dest"]["l"], pt, "call")
+                    for a in t["args"]:
+                        if a["k"] in ("copy", "move") and not a["p"]["proj"]:
+                            al = a["p"]["l"]
+                            ty = self.locals[al]["tyt"]
+                            if ty["k"] in ("ref", "ptr") and ty.get("mut"):
+                                for o in pts.get(al, ()):
+                                    if o[0] == "local":
+                                        changed |= mark(o[1], pt, "callmut")
+                                    elif o[0] == "param":
+                                        changed |= mark(-o[1], pt, "callmut")
+        return tainted, through
+
     # ------------------------------------------------------------- guards
     def bool_test(self, b):
         """If block b ends in a two-way switch on a bool-like value return
@@ -940,6 +1030,70 @@ def _may_hold_ref(tyt):
     if k == "tuple":
         return any(_may_hold_ref(a) for a in tyt["elems"])
     return False
+
+
+def _can_carry_text(t, depth=0):
+    """can a value of this type hold caller-controlled text?  (numbers, bools, unit cannot)"""
+    k = t["k"]
+    if depth > 8:
+        return True
+    if k == "prim":
+        return t["name"] in ("str", "u8", "char")
+    if k in ("never",):
+        return False
+    if k in ("ref", "ptr", "slice", "array"):
+        return _can_carry_text(t["inner"], depth + 1)
+    if k == "tuple":
+        return any(_can_carry_text(e, depth + 1) for e in t["elems"])
+    if k == "adt":
+        if t["path"] in ("std::string::String", "std::fmt::Arguments", "core::fmt::rt::Argument", "std::borrow::Cow",
+                         "std::ffi::OsString", "std::path::PathBuf", "convert::Color"):
+            return True
+        if t["path"].startswith("std::ops::Range"):
+            return False
+        return any(_can_carry_text(a, depth + 1) for a in t["args"]) or t.get("local", False)
+    if k in ("fnptr", "fndef", "closure"):
+        return False
+    return True
+
+
+def decode_template(bs):
+    """core::fmt::Arguments template bytes -> list of ('lit', str) | ('arg', index, flags, width, precision)"""
+    out = []
+    i = 0
+    nxt = 0
+    n = len(bs)
+    while i < n:
+        b = bs[i]
+        i += 1
+        if b == 0:
+            break
+        if b < 0x80:
+            out.append(("lit", bytes(bs[i:i + b]).decode("utf-8", "replace")))
+            i += b
+        elif b == 0x80:
+            ln = bs[i] | (bs[i + 1] << 8)
+            i += 2
+            out.append(("lit", bytes(bs[i:i + ln]).decode("utf-8", "replace")))
+            i += ln
+        else:
+            flags = width = prec = None
+            idx = nxt
+            if b & 1:
+                flags = bs[i] | (bs[i + 1] << 8) | (bs[i + 2] << 16) | (bs[i + 3] << 24)
+                i += 4
+            if b & 2:
+                width = bs[i] | (bs[i + 1] << 8)
+                i += 2
+            if b & 4:
+                prec = bs[i] | (bs[i + 1] << 8)
+                i += 2
+            if b & 8:
+                idx = bs[i] | (bs[i + 1] << 8)
+                i += 2
+            out.append(("arg", idx, flags, width, prec))
+            nxt = idx + 1
+    return out
 
 
 def _freeze(v):
@@ -1093,6 +1247,9 @@ DEFAULT_PURE = {
     "core::slice::index::<impl std::ops::Index<I> for [T]>::index": "slice_index",
     "core::slice::index::<impl std::ops::IndexMut<I> for [T]>::index_mut": "slice_index",
     "std::option::Option::<T>::as_ref": "as_ref",
+    "std::vec::Vec::<T, A>::is_empty": "is_empty",
+    "core::slice::<impl [T]>::is_empty": "is_empty",
+    "std::string::String::is_empty": "is_empty",
     "std::string::String::as_bytes": "as_bytes",
     "core::str::<impl str>::as_bytes": "as_bytes",
     "<std::string::String as std::ops::Deref>::deref": "deref",
@@ -1104,6 +1261,8 @@ DEFAULT_PURE = {
     "convert::Color::to_str": None,
     "<module::ModuleType as std::cmp::PartialEq>::eq": "eq",
     "<module::ModuleType as std::cmp::PartialEq>::ne": "ne",
+    "encode::ascii_to_alphanumeric": None,
+    "encode::ascii_to_digit": None,
     "<usize as std::convert::From<bool>>::from": None,
     "<u8 as std::convert::From<bool>>::from": None,
 }
@@ -1155,6 +1314,15 @@ def expr_str(e, fn=None, depth=0):
     if k == "fn":
         return e[1]
     return str(e)
+
+
+def unname(e):
+    """drop field names from a canonical expression (tuple fields are unnamed, struct fields named)"""
+    if not isinstance(e, tuple):
+        return e
+    if e and e[0] == "field" and len(e) == 4:
+        return ("field", unname(e[1]), e[2])
+    return tuple(unname(x) for x in e)
 
 
 def subexprs(e):
